@@ -303,6 +303,31 @@ func init() {
 		}
 		fmt.Fprintf(&e.out, "def ratioDiffEpsilon : String := %s\n", leanStr(eps))
 
+		// --- Rule: every accessor runs under the rule's lock (first statement takes it, second defers the release) ---
+		var locks []string
+		for _, fn := range []string{"GetCFSQuotaScaleRatio", "UpdateCFSQuotaEnabled", "UpdateCPUNormalizationRatio"} {
+			fd := e.funcDecl(bd, "Rule", fn)
+			if fd == nil || len(fd.Body.List) < 2 {
+				e.fail("Rule.%s not found", fn)
+				continue
+			}
+			take, rel := "?", "?"
+			if es, ok := fd.Body.List[0].(*ast.ExprStmt); ok {
+				if c, ok := es.X.(*ast.CallExpr); ok {
+					if se, ok := c.Fun.(*ast.SelectorExpr); ok {
+						take = se.Sel.Name
+					}
+				}
+			}
+			if ds, ok := fd.Body.List[1].(*ast.DeferStmt); ok {
+				if se, ok := ds.Call.Fun.(*ast.SelectorExpr); ok {
+					rel = se.Sel.Name
+				}
+			}
+			locks = append(locks, fn+" "+take+" "+rel)
+		}
+		fmt.Fprintf(&e.out, "def ruleLocks : List String := %s\n", c14LeanList(locks))
+
 		// --- resourceexecutor init(): which updater constructor serves the three files ---
 		var upd []string
 		files := e.dir("pkg/koordlet/resourceexecutor")
